@@ -32,15 +32,48 @@ from pyvc.verify import Verifier, discharge_all  # noqa: E402
 ALL_PROPS = [f"C{i:02d}" for i in range(1, 21)]
 
 
-def load_registry():
+def _module_info(pid):
+    """(exists, DEPENDS, installs global models?) read from the source text, without importing the module"""
+    import ast as _ast
+    import re as _re
+
+    path = os.path.join(HERE, "contracts", f"{pid}.py")
+    if not os.path.exists(path):
+        return False, [], False
+    src = open(path).read()
+    deps = []
+    for node in _ast.parse(src).body:
+        if isinstance(node, _ast.Assign) and any(isinstance(t, _ast.Name) and t.id == "DEPENDS" for t in node.targets):
+            try:
+                deps = list(_ast.literal_eval(node.value))
+            except Exception:
+                deps = []
+    has_ext = bool(_re.search(r"ext_C\d\d|EXTRA_MODELS|EXTRA_METHODS", src))
+    return True, deps, has_ext
+
+
+def depends_closure(prop):
+    out, todo = [], [prop]
+    while todo:
+        p = todo.pop()
+        for d in _module_info(p)[1]:
+            if d not in out and d != prop:
+                out.append(d)
+                todo.append(d)
+    return out
+
+
+def load_registry(prop=None):
+    """Import the contract modules.  Modules that install global library models (pyvc/ext_Cxx.py, EXTRA_MODELS) are
+    imported only when they belong to the property being checked or to its DEPENDS closure: those models are
+    process-wide and were developed per property, so they must not leak into another property's proof."""
     R = Registry()
+    wanted = None if prop is None else {prop, *depends_closure(prop)}
     for pid in ALL_PROPS:
-        try:
-            m = importlib.import_module(f"contracts.{pid}")
-        except ModuleNotFoundError as e:
-            if e.name == f"contracts.{pid}":
-                continue
-            raise
+        exists, _, has_ext = _module_info(pid)
+        if not exists or (wanted is not None and has_ext and pid not in wanted):
+            continue
+        m = importlib.import_module(f"contracts.{pid}")
         m.register(R)
     return R
 
@@ -126,14 +159,11 @@ def main():
     if a.replay:
         return do_replay(prop, a.replay)
 
-    R = load_registry()
+    R = load_registry(prop)
     # a property may rest on the contracts of other properties (module attribute DEPENDS = ["C13", ...]): their
     # carriers are re-verified as part of this check, so a change that breaks one of them is reported here too
-    depends = []
-    try:
-        depends = list(getattr(importlib.import_module(f"contracts.{prop}"), "DEPENDS", []))
-    except ModuleNotFoundError:
-        pass
+    depends = depends_closure(prop)
+    R.current, R.scope = prop, tuple(depends)
     mine = [c for c in R.values() if (c.prop == prop or c.prop in depends) and not c.trusted and (not a.only or a.only in c.key)]
     timeout_ms = 10000 if tier == "quick" else 60000
     obligs, carriers, errors, assumptions, covers, used_lemmas = [], [], [], set(), [], set()
